@@ -58,9 +58,9 @@ Run/RunC08.vos Run/RunC08.vok Run/RunC08.required_vos: Run/RunC08.v Base.vos Pri
 Proofs/MulAux.vo Proofs/MulAux.glob Proofs/MulAux.v.beautified Proofs/MulAux.required_vo: Proofs/MulAux.v Base.vo Prim.vo Model/Digit.vo Model/Core.vo Model/Shift.vo Model/AddSub.vo
 Proofs/MulAux.vio: Proofs/MulAux.v Base.vio Prim.vio Model/Digit.vio Model/Core.vio Model/Shift.vio Model/AddSub.vio
 Proofs/MulAux.vos Proofs/MulAux.vok Proofs/MulAux.required_vos: Proofs/MulAux.v Base.vos Prim.vos Model/Digit.vos Model/Core.vos Model/Shift.vos Model/AddSub.vos
-Proofs/Mul.vo Proofs/Mul.glob Proofs/Mul.v.beautified Proofs/Mul.required_vo: Proofs/Mul.v 
-Proofs/Mul.vio: Proofs/Mul.v 
-Proofs/Mul.vos Proofs/Mul.vok Proofs/Mul.required_vos: Proofs/Mul.v 
+Proofs/Mul.vo Proofs/Mul.glob Proofs/Mul.v.beautified Proofs/Mul.required_vo: Proofs/Mul.v Base.vo Prim.vo Model/Digit.vo Model/Core.vo Model/Shift.vo Model/AddSub.vo Model/Mul.vo Proofs/MulAux.vo
+Proofs/Mul.vio: Proofs/Mul.v Base.vio Prim.vio Model/Digit.vio Model/Core.vio Model/Shift.vio Model/AddSub.vio Model/Mul.vio Proofs/MulAux.vio
+Proofs/Mul.vos Proofs/Mul.vok Proofs/Mul.required_vos: Proofs/Mul.v Base.vos Prim.vos Model/Digit.vos Model/Core.vos Model/Shift.vos Model/AddSub.vos Model/Mul.vos Proofs/MulAux.vos
 Properties/C02.vo Properties/C02.glob Properties/C02.v.beautified Properties/C02.required_vo: Properties/C02.v Base.vo Prim.vo
 Properties/C02.vio: Properties/C02.v Base.vio Prim.vio
 Properties/C02.vos Properties/C02.vok Properties/C02.required_vos: Properties/C02.v Base.vos Prim.vos
